@@ -47,6 +47,7 @@ def strat13(rng, n):
 # ----------------------------------------------------------------------------------------- C06
 def c06(tier):
     rep = Report('C06', tier)
+    thm(rep, 'sq', 'all 8192 identity fields: digits octal, X bit irrelevant, encoder inverts decoder')
     rng = random.Random(vlib.seed())
     codes = list(range(8192)) if tier == 'thorough' else strat13(rng, 700)
     rep.exhaustive = tier == 'thorough'
@@ -77,6 +78,7 @@ def c06(tier):
 # ----------------------------------------------------------------------------------------- C05
 def c05(tier):
     rep = Report('C05', tier)
+    thm(rep, 'alt', 'all 8192 AC13 codes: zero / M / Q case analysis, range and granularity of values, AC12 = AC13 without M, Q=1 encoder inverts decoder')
     rng = random.Random(vlib.seed())
     if tier == 'thorough':
         c13 = list(range(8192))
@@ -111,6 +113,7 @@ def c05(tier):
 # ----------------------------------------------------------------------------------------- C07
 def c07(tier):
     rep = Report('C07', tier)
+    thm(rep, 'cs', 'all 64 character codes x 8 positions x TC 1..4 in encoded squitters: callsign text, omission of other codes, TC / category fields')
     rng = random.Random(vlib.seed())
     vals = []
     # all 64 codes in each of the 8 positions, others fixed / random
@@ -146,6 +149,7 @@ def c07(tier):
 # ----------------------------------------------------------------------------------------- C09
 def c09(tier):
     rep = Report('C09', tier)
+    thm(rep, 'vel', 'velocity lattice: integer square root bracket, track in 0..359, opposite / mirrored / swapped component symmetries of floor(atan2)', stride=4 if tier == 'quick' else 1)
     rng = random.Random(vlib.seed())
     vals = []
     edge = [0, 1, 2, 3, 511, 512, 1022, 1023]
@@ -255,6 +259,7 @@ def decorate(rng, digits, k):
 
 def c02(tier):
     rep = Report('C02', tier)
+    line_scs = line_model(rep, tier, emit=True)
     rng = random.Random(vlib.seed())
     a = 0x4840d6
     valid = [df17(5, a, me_ident(4, 1, callsign_codes('KLM1023'))), short(4, enc_alt13(30000), a), df11(5, a),
@@ -301,6 +306,11 @@ def c02(tier):
             for l in part:
                 g.append(run1(l, direct=True))
             groups.append(g)
+    alpha_l = scn.parse_literal_alphabet('line')
+    trie = scn.trie_of(line_scs)
+    for o in ([], ['-U']):
+        groups += scn.groups_from_trie(trie, alpha_l, o, split_depth=1)
+    rep.extra['model_transitions_replayed'] = 2 * scn.count_edges(trie)
     conform(rep, 'C02', groups, maxlen=2500)
     rep.rule = ('lines: every DF 0..31 as 14- and 28-digit frame (valid parity / address overlay) with and without 12-digit '
                 'time stamp; digit counts %s cut from valid frames; %d randomly decorated / case-mixed / digit-inserted variants '
@@ -325,6 +335,7 @@ def nine_frames(a, rng):
 
 def c03(tier):
     rep = Report('C03', tier)
+    thm(rep, 'addr', 'Address(encode(format, address, payload)) = address for the nine formats x 32 addresses (incl. all single-bit ones) x 56 payload patterns; encoded frames pass the gate')
     rng = random.Random(vlib.seed())
     groups = []
     others = [0x100001, 0xFFFFFF, 0x4840d7]
@@ -384,6 +395,9 @@ def c03(tier):
 # ----------------------------------------------------------------------------------------- C04
 def c04(tier):
     rep = Report('C04', tier)
+    mb = 8 if tier == 'quick' else 14
+    thm(rep, 'crc112', 'every 1-/2-bit error and every burst of up to %d bits inside bits 6..112 has a non-zero syndrome for generator 0x1FFF409' % mb, maxburst=mb, workers=16)
+    thm(rep, 'crc56', 'DF11: every 1-/2-bit error and burst of up to %d bits confined to bits 6..49 is visible in the upper 17 syndrome bits' % mb, maxburst=mb)
     rng = random.Random(vlib.seed())
     sq = valid_squitters(rng, 3 if tier == 'quick' else 10)
     groups = []
@@ -510,6 +524,7 @@ def c01_optsets(tier):
 
 def c01(tier):
     rep = Report('C01', tier)
+    line_model(rep, tier)
     rng = random.Random(vlib.seed())
     L = hostile_lines(rng, tier)
     base, disp = c01_optsets(tier)
@@ -665,6 +680,7 @@ def commb_values(rng, tier):
 
 def c10(tier):
     rep = Report('C10', tier)
+    thm(rep, 'commb', 'Comm-B encoders / field extractors / validity and precedence predicates over signed ranges (roll, rates, track, heading): round trips, IntNear of the floor decoding, strict 4,0/5,0/6,0 registers never look like an earlier register', stride=6 if tier == 'quick' else 1)
     rng = random.Random(vlib.seed())
     V = commb_values(rng, tier)
     groups = []
@@ -755,6 +771,7 @@ def c08_positions(rng, tier):
 
 def c08(tier):
     rep = Report('C08', tier)
+    thm(rep, 'cpr', 'CPR round trip on a stratified lattice (every 0.03 deg of latitude and both sides of each degree, 7 longitudes incl. antimeridian, both parities): same-zone pairs decode within one bin of the newer position inside the legal ranges, straddling pairs decode to nothing', stride=8 if tier == 'quick' else 1)
     rng = random.Random(vlib.seed())
     P = c08_positions(rng, tier)
     delays = [0, 3000, 9000, 9900, 10000, 10100, 11000, 60000]
@@ -810,6 +827,50 @@ def c08(tier):
 
 
 CHECKS['C08'] = c08
+
+
+
+# ------------------------------------------------------------------------- E1: theorem domains
+def thm(rep, mode, what, maxburst=8, stride=1, workers=8):
+    import threading
+    cfg = 'Thm.run%d_%d_%s.cfg' % (os.getpid(), threading.get_ident(), mode)
+    with open(os.path.join(vlib.SPEC, cfg), 'w') as f:
+        f.write('SPECIFICATION Spec\nCONSTANTS\n  Mode = "%s"\n  MaxBurst = %d\n  Stride = %d\nINVARIANT Thm\n' % (mode, maxburst, stride))
+    try:
+        r = vlib.tlc_model('Thm', cfg=cfg, workers=workers, timeout=3000)
+    finally:
+        os.remove(os.path.join(vlib.SPEC, cfg))
+    r['module'] = 'Thm[%s]' % mode
+    rep.add_model(r, what)
+
+
+LINE_CFG = """SPECIFICATION Spec
+CONSTANTS
+  Alphabet <- AlphaLit
+  Filt <- NoFilt
+  OptR = FALSE
+  OptU = FALSE
+  DeleteAfter = 60
+  Ticks <- TickSet
+  MaxSteps = %d
+  Batch <- One
+  TickResetsCtr = FALSE
+INVARIANT InvFold
+INVARIANT InvCount
+INVARIANT Total
+PROPERTY Inert
+PROPERTY Isolation
+VIEW View
+CHECK_DEADLOCK FALSE
+"""
+
+
+def line_model(rep, tier, emit=False):
+    depth = 4 if tier == 'quick' else 6
+    return model_and_scenarios(rep, 'MC_line', LINE_CFG % depth,
+                               'line model: 15-line alphabet (accepted frames and every way a line fails to be a frame), depth %d: Total (every '
+                               'line has an outcome), Inert (a rejected line changes nothing later lines depend on), InvFold / InvCount over '
+                               'the accepted subsequence' % depth, emit=emit, workers=8)
 
 
 # ------------------------------------------------------------------------- model-driven checks
@@ -1455,6 +1516,7 @@ def recorded_lines(name, limit, rng=None, start=0):
 
 def c13(tier):
     rep = Report('C13', tier)
+    line_model(rep, tier)
     rng = random.Random(vlib.seed())
     J = junk_lines(rng)
     groups = []
